@@ -154,6 +154,8 @@ type runawayPanic struct{}
 
 // Host is the harness state attached to one LState.
 type Host struct {
+	// Source: the program text, for entry style 6 (DoString)
+	Source        string
 	goRuntimeSeen bool
 	reattachAt    int64
 	L             *lua.LState
@@ -651,6 +653,15 @@ func (h *Host) RunProto(p *lua.FunctionProto) (out Outcome) {
 	case 5:
 		L.Push(fn)
 		err = L.PCall(0, lua.MultRet, L.NewFunction(func(L *lua.LState) int { return 1 }))
+	case 6:
+		// the text itself through DoString (when the engine supplied it), which leaves nothing on the stack
+		if h.Source != "" {
+			src := h.Source
+			h.Source = "" // a later chunk on the same state is given as a prototype
+			err = L.DoString(src)
+			break
+		}
+		fallthrough
 	default:
 		L.Push(fn)
 		err = L.PCall(0, lua.MultRet, nil)
